@@ -1,10 +1,9 @@
 /-
   Proofs.C06Pairs — the invariant carried through the operations (`UniqS`: uniqueness among the
-  well-formed, scalar-keyed, covered documents) in its "ordered pairs" form, and the lemma that
-  a write checked by `_ensure_uniques` cannot create a clash.
+  scalar-keyed, covered documents) in its "ordered pairs" form, and the lemma that a write
+  checked by `_ensure_uniques` cannot create a clash.
 -/
 import Proofs.C06Ensure
-import Proofs.C06Wf
 
 set_option linter.unusedSimpArgs false
 
@@ -26,11 +25,11 @@ theorem pair_mem {α : Type} {a b : α} {l : List α} (h : [a, b].Sublist l) : a
   ⟨h.subset (by simp), h.subset (by simp)⟩
 
 /-- the documents the carried invariant speaks about -/
-def good (ix : Index) (p : Val × Val) : Bool := wfVal p.2 && scalarKeys ix p.2 && covers ix p.2
+def good (ix : Index) (p : Val × Val) : Bool := scalarKeys ix p.2 && covers ix p.2
 
 theorem good_iff {ix : Index} {p : Val × Val} :
-    good ix p = true ↔ wfVal p.2 = true ∧ scalarKeys ix p.2 = true ∧ covers ix p.2 = true := by
-  simp [good, and_assoc]
+    good ix p = true ↔ scalarKeys ix p.2 = true ∧ covers ix p.2 = true := by
+  simp [good]
 
 /-- the two documents do not clash on the index -/
 def Rk (ix : Index) (a b : Val × Val) : Prop := keyEq (keyVals ix a.2) (keyVals ix b.2) = false
@@ -51,16 +50,16 @@ theorem uniqS_of_uniqInv {c : Coll} (h : UniqInv c) : UniqS c := by
   intro ix hix hu _ a b hab ha hb
   have hp := h ix hix hu
   rw [List.pairwise_iff_forall_sublist] at hp
-  exact hp (sublist_pair_filter.2 ⟨hab, (good_iff.1 ha).2.2, (good_iff.1 hb).2.2⟩)
+  exact hp (sublist_pair_filter.2 ⟨hab, (good_iff.1 ha).2, (good_iff.1 hb).2⟩)
 
-theorem uniqInv_of_uniqS {c : Coll} (h : UniqS c) (hs : ScalarInv c) (hw : WfDocs c) : UniqInv c := by
+theorem uniqInv_of_uniqS {c : Coll} (h : UniqS c) (hs : ScalarInv c) : UniqInv c := by
   intro ix hix hu
   obtain ⟨hd, hsc⟩ := hs ix hix hu
   rw [List.pairwise_iff_forall_sublist]
   intro a b hab
   obtain ⟨hab', ca, cb⟩ := sublist_pair_filter.1 hab
   obtain ⟨ma, mb⟩ := pair_mem hab'
-  exact h ix hix hu hd a b hab' (good_iff.2 ⟨hw a ma, hsc a ma, ca⟩) (good_iff.2 ⟨hw b mb, hsc b mb, cb⟩)
+  exact h ix hix hu hd a b hab' (good_iff.2 ⟨hsc a ma, ca⟩) (good_iff.2 ⟨hsc b mb, cb⟩)
 
 theorem UniqS.of_sub {c c' : Coll} (h : UniqS c) (hd : c'.docs.Sublist c.docs)
     (hi : ∀ ix ∈ c'.indexes, ix ∈ c.indexes) : UniqS c' :=
@@ -120,7 +119,7 @@ theorem checked_pair {new : Val} {ix : Index} {docs : List (Val × Val)} (hc : C
     (hu : ix.unique = true) (hd : distinctFields ix = true) {a b : Val × Val}
     (hab : [a, b].Sublist docs) (ga : good ix a = true) (gb : good ix b = true)
     (hnew : a.2 = new ∨ b.2 = new) : Rk ix a b :=
-  checked_pair' hc hu hd hab (good_iff.1 ga).2.1 (good_iff.1 ga).2.2 (good_iff.1 gb).2.1
-    (good_iff.1 gb).2.2 hnew
+  checked_pair' hc hu hd hab (good_iff.1 ga).1 (good_iff.1 ga).2 (good_iff.1 gb).1
+    (good_iff.1 gb).2 hnew
 
 end MongoModel.Proofs.C06Lemmas
